@@ -144,11 +144,22 @@ func c29Norm(m map[string]any) map[string]any {
 }
 
 func c29WriteInputs(dir string, inputs [][]byte) (string, error) {
-	hx := make([]string, len(inputs))
-	for i, in := range inputs {
-		hx[i] = hex.EncodeToString(in)
+	// a JSON array of hex strings, written directly (hex digits need no JSON escaping)
+	n := 2
+	for _, in := range inputs {
+		n += 2*len(in) + 3
 	}
-	b, _ := json.Marshal(hx)
+	b := make([]byte, 0, n)
+	b = append(b, '[')
+	for i, in := range inputs {
+		if i > 0 {
+			b = append(b, ',')
+		}
+		b = append(b, '"')
+		b = hex.AppendEncode(b, in)
+		b = append(b, '"')
+	}
+	b = append(b, ']')
 	p := filepath.Join(dir, "inputs.json")
 	return p, os.WriteFile(p, b, 0o644)
 }
@@ -685,17 +696,26 @@ func c29Cross(t *testing.T, r *verifkit.Run, leg string, items []c29Item) {
 	for i := range items {
 		raw[i] = items[i].Bytes
 	}
+	wall := map[string]float64{} // information only, no oracle reads it
+	t0 := time.Now()
 	inp, err := c29WriteInputs(dir, raw)
 	if err != nil {
 		t.Fatalf("write inputs: %v", err)
 	}
+	wall["write_inputs"] = time.Since(t0).Seconds()
+	t0 = time.Now()
 	gov := c29Go(raw)
+	wall["go"] = time.Since(t0).Seconds()
 	var py, js c29LangRun
 	var wg sync.WaitGroup
 	wg.Add(2)
-	go func() { defer wg.Done(); py = c29RunPython(dir, inp, len(raw)) }()
-	go func() { defer wg.Done(); js = c29RunNode(dir, inp, len(raw)) }()
+	var pyS, jsS float64
+	go func() { defer wg.Done(); t := time.Now(); py = c29RunPython(dir, inp, len(raw)); pyS = time.Since(t).Seconds() }()
+	go func() { defer wg.Done(); t := time.Now(); js = c29RunNode(dir, inp, len(raw)); jsS = time.Since(t).Seconds() }()
 	wg.Wait()
+	wall["python"], wall["node"] = pyS, jsS
+	wall["runners"] = time.Since(t0).Seconds()
+	defer func() { wall["total"] = time.Since(t0).Seconds(); r.Note("three_libraries_wall_seconds", wall) }()
 	if py.Why != "" {
 		r.Inconclusive("python leg: " + py.Why)
 	} else {
@@ -942,13 +962,13 @@ func c29Fill(rng *rand.Rand, cls c29FillClass, size int) string {
 }
 
 // c29ExtSize draws a field length in bytes: log-uniform over 16 B .. 64 KiB, a quarter of the draws on a
-// power of two +-1 (64 B .. 64 KiB: 255/256/257, 1023/1024/1025, 4095/4096/4097 ...), one in sixteen
+// power of two +-1 (64 B .. 64 KiB: 255/256/257, 1023/1024/1025, 4095/4096/4097 ...), one in twenty-four
 // beyond 64 KiB (log-uniform up to 2^bigExp).
 func c29ExtSize(rng *rand.Rand, bigExp int) int {
-	switch x := rng.Intn(16); {
-	case x == 0:
+	switch x := rng.Intn(48); {
+	case x < 2:
 		return int(65536 * c29Pow2(rng.Float64()*float64(bigExp-16)))
-	case x < 5:
+	case x < 14:
 		return 1<<uint(6+rng.Intn(11)) + rng.Intn(3) - 1
 	default:
 		return int(16 * c29Pow2(12*rng.Float64())) // 16 .. 65535
@@ -1024,11 +1044,11 @@ func c29GenExtreme(rng *rand.Rand, bigExp int) (lfs.Envelope, string) {
 	switch x := rng.Intn(20); {
 	case x == 0:
 		for _, f := range c29ExtFields {
-			set(f, 1+c29ExtSize(rng, 17)/8)
+			set(f, 1+c29ExtSize(rng, 16)/8)
 		}
 	case x < 6:
 		set(c29ExtFields[rng.Intn(len(c29ExtFields))], c29ExtSize(rng, bigExp))
-		set(c29ExtFields[rng.Intn(len(c29ExtFields))], c29ExtSize(rng, 17))
+		set(c29ExtFields[rng.Intn(len(c29ExtFields))], c29ExtSize(rng, 16))
 	default:
 		set(c29ExtFields[rng.Intn(len(c29ExtFields))], c29ExtSize(rng, bigExp))
 	}
@@ -1050,10 +1070,10 @@ func c29Head(b []byte, n int) string {
 	return string(b)
 }
 
-const c29RuleExtremes = "[extremes] PRNG field assignments whose SIZE and ESCAPING are extreme in the fields a client controls: one or two (1 case in 20: all) of key, bucket, content_type, one original_headers value (tracestate/content-type/...), many original_headers entries, an original_headers key, proxy_id, checksum_alg, created_at, checksum, sha256 are set to exactly L bytes, L log-uniform over 16 B..64 KiB, a quarter of the draws on 2^k-1/2^k/2^k+1 for k=6..16 (so exact 1024-byte keys), one in sixteen between 64 KiB and 256 KiB (thorough: 512 KiB), filled from one of 11 text classes (plain ASCII; & < > which encoding/json writes as 6-byte escapes; quotes and backslashes; control characters; U+2028/U+2029; 2-byte, CJK and 4-byte UTF-8; W3C tracestate lists; MIME parameter lists; a mix of everything), either one unit repeated or a PRNG mix; the other fields are what the proxy usually writes or a [generated] draw. Encoded envelopes range from ~300 bytes to several hundred KiB. Same oracle as [generated]: Go Decode(Encode(e)) = e, IsLfsEnvelope true, re-encode identity, python/node recognise the bytes and decode the same fields; non-trivial = encoded envelope longer than 1 KiB"
+const c29RuleExtremes = "[extremes] PRNG field assignments whose SIZE and ESCAPING are extreme in the fields a client controls: one or two (1 case in 20: all) of key, bucket, content_type, one original_headers value (tracestate/content-type/...), many original_headers entries, an original_headers key, proxy_id, checksum_alg, created_at, checksum, sha256 are set to exactly L bytes, L log-uniform over 16 B..64 KiB, a quarter of the draws on 2^k-1/2^k/2^k+1 for k=6..16 (so exact 1024-byte keys), one in twenty-four between 64 KiB and 256 KiB (thorough: 512 KiB), filled from one of 11 text classes (plain ASCII; & < > which encoding/json writes as 6-byte escapes; quotes and backslashes; control characters; U+2028/U+2029; 2-byte, CJK and 4-byte UTF-8; W3C tracestate lists; MIME parameter lists; a mix of everything), either one unit repeated or a PRNG mix; the other fields are what the proxy usually writes or a [generated] draw. Encoded envelopes range from ~300 bytes to several hundred KiB. Same oracle as [generated]: Go Decode(Encode(e)) = e, IsLfsEnvelope true, re-encode identity, python/node recognise the bytes and decode the same fields; non-trivial = encoded envelope longer than 1 KiB"
 
 func c29PhaseExtremes(r *verifkit.Run) []c29Item {
-	n := r.N(360, 1500)
+	n := r.N(240, 1500)
 	bigExp := r.N(18, 19)
 	var items []c29Item
 	for ci := 0; ci < n; ci++ {
@@ -1086,7 +1106,7 @@ func c29PhaseExtremes(r *verifkit.Run) []c29Item {
 	r.Floor("extreme_envelopes_over_1KiB", int64(n/3))
 	r.Floor("extreme_envelopes_over_4KiB", int64(n/5))
 	r.Floor("extreme_envelopes_over_16KiB", int64(n/12))
-	r.Floor("extreme_envelopes_over_64KiB", int64(n/40))
+	r.Floor("extreme_envelopes_over_64KiB", int64(n/60))
 	r.Floor("extreme_envelopes_with_escapes_or_non_ascii", int64(n/3))
 	return items
 }
@@ -1308,10 +1328,10 @@ func c29PhaseProxy(t *testing.T, r *verifkit.Run, longOnly bool) []c29Item {
 			for h := rng.Intn(5); h > 0; h-- {
 				hs = append(hs, kmsg.Header{Key: hdrKeys[rng.Intn(len(hdrKeys))], Value: []byte(c29Str(rng, 0))})
 			}
-			if long { // 1-3 allow-listed headers of 256 B .. 32 KiB (a tracestate list, a long content type, an opaque correlation id ...)
+			if long { // 1-3 allow-listed headers of 256 B .. 16 KiB (a tracestate list, a long content type, an opaque correlation id ...)
 				for h := 1 + rng.Intn(3); h > 0; h-- {
 					cls := c29FillClasses[rng.Intn(len(c29FillClasses))]
-					hs = append(hs, kmsg.Header{Key: hdrKeys[rng.Intn(9)], Value: []byte(c29Fill(rng, cls, int(256*c29Pow2(7*rng.Float64()))))})
+					hs = append(hs, kmsg.Header{Key: hdrKeys[rng.Intn(9)], Value: []byte(c29Fill(rng, cls, int(256*c29Pow2(6*rng.Float64()))))})
 					r.Seen("rewrite_long_header_text_class", cls.Name)
 				}
 			}
@@ -1487,7 +1507,7 @@ func c29PhaseProxy(t *testing.T, r *verifkit.Run, longOnly bool) []c29Item {
 	if longOnly {
 		r.Floor("envelopes_from_rewrite", 40)
 		r.Floor("envelopes_from_rewrite_over_4KiB", 15)
-		r.Floor("envelopes_from_rewrite_over_16KiB", 5)
+		r.Floor("envelopes_from_rewrite_over_16KiB", 3)
 		r.Floor("envelopes_from_http_produce", 20)
 		r.Floor("envelopes_from_http_produce_over_4KiB", 8)
 		return items
@@ -1720,7 +1740,7 @@ func c29PhaseAgreement(r *verifkit.Run) []c29Item {
 // how much follows the 50-byte prefix).
 func c29PhaseBigAgreement(r *verifkit.Run) []c29Item {
 	var items []c29Item
-	nb := r.N(150, 1500)
+	nb := r.N(100, 1500)
 	for ci := 0; ci < nb; ci++ {
 		rng := r.Rand(2500000 + ci)
 		e, _ := c29GenExtreme(rng, 17)
@@ -1728,8 +1748,8 @@ func c29PhaseBigAgreement(r *verifkit.Run) []c29Item {
 		if err != nil {
 			continue
 		}
-		if len(base) > 1<<15 && rng.Intn(4) != 0 { // keep the volume down: most of the very large ones are cut (which is a mutation too)
-			base = base[:1<<15]
+		if len(base) > 1<<14 && rng.Intn(4) != 0 { // keep the volume down: most of the very large ones are cut (which is a mutation too)
+			base = base[:1<<14]
 		}
 		b := base
 		if rng.Intn(8) != 0 {
@@ -1808,9 +1828,9 @@ func TestVerifC29(t *testing.T) {
 // text through three JSON libraries; nothing in it is concurrent apart from the loopback stand-in).
 // =====================================================================
 
-const c29RuleExtremesProxy = "[extremes/proxy] the proxy's own producers with long client input: rewriteProduceRecords on produce requests whose LFS_BLOB records carry 1-3 allow-listed headers (content-type, content-encoding, correlation-id, message-id, x-correlation-id, X-Request-ID, traceparent, tracestate) of 256 B..32 KiB each from the same text classes and, half of the time, a 100-249 byte topic from those classes (produced envelopes reach > 64 KiB); handleHTTPProduce with a Content-Type of 1..32 KiB from those classes and, half of the time, a 249-byte topic. Same oracle as [proxy] of leg envelopes (recognised, decodes to bucket/key/size/sha256/content_type/original_headers/proxy_id the producer assigned, re-encode identity, python/node agree)"
+const c29RuleExtremesProxy = "[extremes/proxy] the proxy's own producers with long client input: rewriteProduceRecords on produce requests whose LFS_BLOB records carry 1-3 allow-listed headers (content-type, content-encoding, correlation-id, message-id, x-correlation-id, X-Request-ID, traceparent, tracestate) of 256 B..16 KiB each from the same text classes and, half of the time, a 100-249 byte topic from those classes (produced envelopes reach tens of KiB); handleHTTPProduce with a Content-Type of 1..32 KiB from those classes and, half of the time, a 249-byte topic. Same oracle as [proxy] of leg envelopes (recognised, decodes to bucket/key/size/sha256/content_type/original_headers/proxy_id the producer assigned, re-encode identity, python/node agree)"
 
-const c29RuleExtremesAgreement = "[extremes/agreement] the near-miss mutations of leg envelopes (insert/delete/overwrite/truncate/pad/prepend in the first 64 bytes) applied to [extremes] envelopes of up to 128 KiB (cut at 32 KiB three times out of four; one in eight left intact): the three is-envelope verdicts must be equal whatever follows the 50-byte prefix"
+const c29RuleExtremesAgreement = "[extremes/agreement] the near-miss mutations of leg envelopes (insert/delete/overwrite/truncate/pad/prepend in the first 64 bytes) applied to [extremes] envelopes of up to 128 KiB (cut at 16 KiB three times out of four; one in eight left intact): the three is-envelope verdicts must be equal whatever follows the 50-byte prefix"
 
 func TestVerifC29Extremes(t *testing.T) {
 	r := verifkit.Start(t, "C29", "extremes")
